@@ -25,13 +25,15 @@ func init() {
 			"the disjoint twin is the expectation. Path (a), 3 of 4 cases: node family A (direct *Node field) through the real deep copier (VerifDeepCopy) with 5 entry shapes. " +
 			"Path (b), 1 of 4 cases: node family B (recursion through slices, arrays, maps, interfaces only) through dials.Config + View, with the graph in the defaults, in static source values, " +
 			"in a watching source's value and in 1..2 blocking re-stacks. Every result is judged by reflect.DeepEqual against the expectation, by the identity-bijection walk (split/merge) over pointer- and map-typed " +
-			"struct fields, slice/array elements and map values, and by identity-set disjointness from every input (freshness). " +
+			"struct fields, slice/array elements and map values, and by identity-set disjointness from every input (freshness: pointers, maps incl. empty non-nil ones, slice backing arrays with cap>0, interface-held ones included). " +
+			"Empty non-nil maps and zero-length slices with spare capacity are generated in every position (struct field, map value, []any element, interface payload). " +
 			"A case is distinct and non-trivial when its judged graph contains a reference cycle or a pointer/map identity referenced from >=2 locations; signature = path + entry/scenario + plan JSON. " +
 			"Not generated (kept to the fixed corpus or out of scope): a []any that reaches itself without passing a pointer or map; two layers that both set Any with a pointer/struct/scalar payload. " +
 			"Leaf pointers into another node's ID field (interior pointers) are used in ~2.4% of path (a) graphs; they are outside the quantifier (not an edge between nodes), so their identity is measured (interior_pointer_identity_lost), never judged. " +
 			"A fixed corpus (regression cases for the repaired defects and hand-written topologies) runs at every seed in shard 0, each case in its own child process.",
 		Assumptions: []string{
 			"interior pointers (a pointer to a field inside a node) are not edges of the quantified graphs: generated at low rate, observed only",
+			"freshness is judged for every pointer, map (empty ones included) and slice backing array with capacity > 0 reachable from a result, wherever it is held (struct field, element, map value, interface payload, pointee); zero-capacity slices are skipped (runtime.zerobase)",
 			"identity clause judged only at the locations the statement lists (pointer-/map-typed struct fields, slice/array elements, map values); references that are the dynamic value of an interface, pointees of pointer-to-pointer and the root handle are measured (held_identity_kept/lost), not judged",
 			"node types with a direct *Node struct field make ptrify.Pointerify recurse on the type, so family A is exercised through the deep copier only; dials.Config sees family B only",
 			"in path (b) a source never sets Any when the defaults' Any is non-nil (merge semantics of two non-nil interface values are outside C03)",
@@ -187,15 +189,15 @@ func c03Judge(w *fw.Worker, i int, where string, exp, out reflect.Value, ins []r
 		iw.walk(in, false, false)
 		iws = append(iws, iw)
 	}
-	hit, heldOnly := c03NotFresh(ow, iws...)
+	hits := c03NotFresh(ow, iws...)
 	w.Count("fresh_identities_checked", int64(len(ow.idents)))
-	w.Count("held_only_identities_shared_with_input", int64(heldOnly))
-	if hit != nil {
-		wit := map[string]any{"identity": fmt.Sprintf("%s %s %#x", c03KindName(hit.kind), hit.typ, hit.addr)}
+	w.Count("fresh_slice_backing_arrays_checked", int64(len(ow.spans)))
+	for _, hit := range hits {
+		wit := map[string]any{"identity": hit.Detail}
 		for k, v := range witness {
 			wit[k] = v
 		}
-		w.Violation(i, "not-fresh:"+c03KindName(hit.kind)+":"+where, fmt.Sprintf("result holds a %s (%s) that is also reachable from an input", c03KindName(hit.kind), hit.typ), wit)
+		w.Violation(i, "not-fresh:"+hit.Label+":"+where, "result is not fresh: "+hit.Detail, wit)
 		ok = false
 	}
 	// evidence about the judged graph (the expectation is isomorphic to the input)
@@ -208,6 +210,8 @@ func c03Judge(w *fw.Worker, i int, where string, exp, out reflect.Value, ins []r
 	w.Count("shared_pointer_identities", int64(sp))
 	w.Count("shared_map_identities", int64(sm))
 	w.Count("typed_nil_pointers_in_interfaces", int64(ew.typedNilIface))
+	w.Count("empty_non_nil_maps", int64(ew.emptyMaps))
+	w.Count("zero_length_slices_with_capacity", int64(ew.spareSlices))
 	w.Count("interface_held_refs_in_inputs", int64(ew.ifaceHeldRefs))
 	for f := range ew.feats {
 		w.SetAdd("features", f)
